@@ -56,12 +56,17 @@ fn handle_client(stream: TcpStream, dbs: Arc<Databases>) {
     let (mut client, mut receiver) = Client::new_empty_and_receiver();
     writer.write_fmt(format_args!("ok \n")).unwrap();
     writer.flush().unwrap();
+    // What has arrived of the line being received: a command can come in more than one TCP
+    // segment, the socket is non blocking, and a read that finds no more bytes yet must not throw
+    // away the first part of the line
+    let mut pending: Vec<u8> = Vec::new();
     loop {
-        let mut buf = String::new();
-        let read_line = reader.read_line(&mut buf);
+        let read_line = reader.read_until(b'\n', &mut pending);
         stream.set_nonblocking(true).unwrap();
         match read_line {
             Ok(_) => {
+                let buf = String::from_utf8_lossy(&pending).to_string();
+                pending.clear();
                 log::debug!("Command print: {}", clean_string_to_log(&buf, &dbs));
                 match buf.as_ref() {
                     "" => {
